@@ -1,7 +1,54 @@
-import Atomman.Prelude
-open Atomman
+import Atomman.C04
+open Atomman Atomman.C04
 
-/-- stub: replaced when the C04 model is built. -/
-def handleC04 (_toks : List String) : String := err "op"
+def parseAtoms (e : Nat) : Nat → List String → Option (List (Atom Rat))
+  | 0, [] => some []
+  | 0, _ => none
+  | n + 1, toks =>
+    match toks with
+    | t :: x :: y :: z :: rest =>
+      match t.toInt?, parseRat? x, parseRat? y, parseRat? z, parseRats? (rest.take e) with
+      | some t, some x, some y, some z, some ex =>
+        if ex.length ≠ e then none else
+        (parseAtoms e n (rest.drop e)).map (fun l => ⟨t, ⟨x, y, z⟩, ex⟩ :: l)
+      | _, _, _, _, _ => none
+    | _ => none
+
+def showAtom (a : Atom Rat) : String :=
+  toString a.atype ++ " " ++ showRats (a.pos.toList ++ a.extra)
+
+def showResult (r : Box Rat × List (Atom Rat)) : String :=
+  showRats (r.1.vects.toList ++ r.1.origin.toList) ++ " " ++ toString r.2.length ++
+    (r.2.foldl (fun acc a => acc ++ " " ++ showAtom a) "")
+
+def handleC04 (toks : List String) : String :=
+  match toks with
+  | "supersize" :: e :: n :: rest =>
+    match e.toNat?, n.toNat?, parseRats? (rest.take 12), parseInts? ((rest.drop 12).take 6) with
+    | some e, some n, some bx, some [l0, h0, l1, h1, l2, h2] =>
+      match M3.ofList? (bx.take 9), V3.ofList? (bx.drop 9), parseAtoms e n (rest.drop 18),
+            Size.ofPair? l0 h0, Size.ofPair? l1 h1, Size.ofPair? l2 h2 with
+      | some v, some o, some atoms, some sa, some sb, some sc =>
+        showResult (supersize ⟨v, o⟩ sa sb sc atoms)
+      | some _, some _, some _, _, _, _ => err "value"
+      | _, _, _, _, _, _ => err "format"
+    | _, _, _, _ => err "format"
+  | "sizeint" :: n :: [] =>
+    match n.toInt? with
+    | some n => match Size.ofInt? n with
+      | some s => toString s.lo ++ " " ++ toString s.hi
+      | none => err "value"
+    | none => err "format"
+  | "rotate" :: e :: n :: rest =>
+    match e.toNat?, n.toNat?, parseRats? (rest.take 12), parseInts? ((rest.drop 12).take 9) with
+    | some e, some n, some bx, some us =>
+      match M3.ofList? (bx.take 9), V3.ofList? (bx.drop 9), M3.ofList? us, parseAtoms e n (rest.drop 21) with
+      | some v, some o, some U, some atoms =>
+        match rotateRaw Rat.floor ⟨v, o⟩ U atoms with
+        | some r => showResult r
+        | none => err "value"
+      | _, _, _, _ => err "format"
+    | _, _, _, _ => err "format"
+  | _ => err "op"
 
 def main : IO Unit := runDriver handleC04
